@@ -84,7 +84,9 @@ def check(case, exclude=True):
         v = case['custom'][k % 4]
         if v is not None:
             t.tag = tuple(v) if isinstance(v, list) else v
-        t.estimate = (k % 3) + 0.5
+        t.estimate = [None, 0, 0.5, 3, 0][k % 5]
+        t.spent = [None, 1, 0][k % 3]
+        t.milestone = (k % 4 == 0)
     member_ids = {id(t) for t in members}
     mode = case['mode']
     if mode == 'clone':
